@@ -41,7 +41,7 @@ def make_skeleton(rng, idx: int, probes: bool = False) -> dict:
             if probes:
                 kinds = dict(kinds)
                 kinds.update(ctrl.PROBE[lang])
-            style = rng.choice(["func", "method"] + (["arrow"] if lang in ("ts", "js") else []))
+            style = rng.choice(["func", "method"] + (["arrow", "fexpr", "generator"] if lang in ("ts", "js") else []))
             if rng.random() < 0.4:
                 block = ctrl.gen_chain(rng, kinds, rng.randint(1, 7))
             else:
